@@ -102,7 +102,9 @@ def gen_model(rng, n_inputs=4, n_formulas=6, sheets=('Sheet1',),
             for rr in range(r1, r2 + 1):
                 for cc in range(c1, c2 + 1):
                     deps.add((rs, cc, rr))
-            rg = ('rng', rs if rs != s else None, c1, r1, c2, r2, FALSE4)
+            fl = FALSE4 if rng.random() < 0.6 else tuple(
+                rng.random() < 0.5 for _ in range(4))
+            rg = ('rng', rs if rs != s else None, c1, r1, c2, r2, fl)
             f = rng.choice(['SUM', 'SUM', 'MAX', 'MIN', 'COUNT'])
             ast = ('call', f, [rg])
             if f in ('MAX', 'MIN'):
